@@ -413,6 +413,28 @@ fn rnsp(out: &mut Out, r: &mut Rng, thorough: bool) {
                 });
             }
         } }
+        // decrypted results whose component plaintexts have DIFFERENT lengths: decryption trims every component to its own significant
+        // coefficient count, so a top coefficient that is a multiple of ONE component modulus only (here: of the sum a + b resp. the
+        // difference a - b) is missing in that component alone; coefficient decoding must still recombine every position
+        if k >= 2 {
+            use crate::big::Big;
+            for j in 0..k { for (op, top_len) in [("add", n - 1), ("sub", n / 2 + 1), ("addplain", 3usize.min(n))] {
+                let c = 1 + r.below(1000);
+                let target = Big::from_u64(e.ts[j]).mul_u64(c);                    // top coefficient of the result: p_j * c  (< T)
+                let x = Big::random_below(r, &target);
+                let mut a = rns_values(r, &e.ts, top_len, 0); let mut b = rns_values(r, &e.ts, top_len, 0);
+                let (ta, tb) = if op == "sub" { (target.add(&x), x.clone()) } else { (target.sub(&x), x.clone()) };
+                if !Big::product(&e.ts).ge(&ta.add_u64(1)) { continue; }
+                let last = (top_len - 1) * k;
+                a[last..last + k].copy_from_slice(&ta.limbs(k)); b[last..last + k].copy_from_slice(&tb.limbs(k));
+                out.case(&format!("rnsp_eval {} {} 1 {} {} {}", tsf, n, op, fl(&a), fl(&b)), &format!("{}-rnsp-n{}k{}-top-multiple-of-p{}", op, n, k, j), || {
+                    let (pa, pb) = (e.enc.encode_polynomial_new(&a), e.enc.encode_polynomial_new(&b));
+                    let ca = e.encryptor.encrypt_new(&pa); let cb = e.encryptor.encrypt_new(&pb);
+                    let res = match op { "add" => e.ev.add_new(&ca, &cb), "sub" => e.ev.sub_new(&ca, &cb), _ => e.ev.add_plain_new(&ca, &pb) };
+                    fl(&e.enc.decode_polynomial_new(&e.decryptor.decrypt_new(&res)))
+                });
+            } }
+        }
     } }
 }
 
